@@ -6,6 +6,13 @@ package main
 //   ein.msgs  <msgs>                       | <returned strings, comma separated hex>   (or panic:...)
 //   ein.rt    <msgs>                       | [ n (<msg> | ~)*  = decoder(encoder(msgs)): the round trip through both converters
 //   din.lines [ n <hex line>* J [ k <json oracle entry>*   | [ n (<msg> | ~)*          (or panic:...)
+//   ein.seq   [ k <msgs>*                  | 2k results: k snapshots taken at return time, then the k kept slices read after the last call
+//   ein.par   [ k <msgs>*                  | the same, calls of even / odd index in two goroutines (convseq.go)
+//   ein.reuse [ 2 <msgs> <msgs>            | 2 results; the second call converts the message objects of the first, overwritten in place
+//   ein.fields                             | the field names Message.field of the proto definitions reachable from InboundMessage
+//   din.seq   [ k ([ n <hex line>*)* J ... | 2k message lists (snapshots, then the kept lists re-read after the last call)
+//   din.par   as din.seq                   | the same, calls of even / odd index in two goroutines
+//   din.ctx   as din.lines                 | <msgs> ; ( L <hex line> <msgs> )*   what the decoder returns for each distinct line alone
 //   din.rx    <regex variable name>        | <hex of the pattern text of the library's compiled regexp object>
 //   din.match <regex variable name> <hex line> | - (no match) or M <hex submatch 1> <hex submatch 2> ... (empty = -)
 //             (the REAL regexp objects of converterFunctions.go, reached through go:linkname: rxlink.go)
@@ -653,6 +660,63 @@ func (e *convInExec) exec1(cmd string, a []string) string {
 			w := &tw{}
 			pMsgs(w, out, false)
 			res = w.String()
+		case "ein.seq", "ein.par":
+			lists := rMsgsLists(&tr{toks: a})
+			held := make([][]string, len(lists))
+			call := func(i int) { held[i] = helpers.InboundMessagesToRawPanelASCIIstrings(lists[i]) }
+			render := func(i int) string { return hxListDash(held[i]) }
+			if cmd == "ein.par" {
+				res = strings.Join(runPar(len(lists), call, render), " ")
+			} else {
+				res = strings.Join(runSeq(len(lists), call, render), " ")
+			}
+		case "ein.reuse":
+			lists := rMsgsLists(&tr{toks: a})
+			if len(lists) != 2 {
+				panic("ein.reuse takes two message lists")
+			}
+			r1 := hxListDash(helpers.InboundMessagesToRawPanelASCIIstrings(lists[0]))
+			second := reuseObjects(lists[0], lists[1])
+			r2 := hxListDash(helpers.InboundMessagesToRawPanelASCIIstrings(second))
+			res = r1 + " " + r2
+		case "ein.fields":
+			res = strings.Join(protoFieldNames((&rwp.InboundMessage{}).ProtoReflect().Descriptor()), " ")
+		case "din.seq", "din.par":
+			r := &tr{toks: a}
+			r.expect("[")
+			k := int(r.i64())
+			batches := make([][]string, k)
+			for b := range batches {
+				batches[b] = rLines(r)
+			}
+			held := make([][]*rwp.InboundMessage, k)
+			call := func(i int) { held[i] = helpers.RawPanelASCIIstringsToInboundMessages(batches[i]) }
+			render := func(i int) string {
+				w := &tw{}
+				pMsgs(w, held[i], false)
+				return w.String()
+			}
+			if cmd == "din.par" {
+				res = strings.Join(runPar(k, call, render), " ")
+			} else {
+				res = strings.Join(runSeq(k, call, render), " ")
+			}
+		case "din.ctx":
+			lines := rLines(&tr{toks: a})
+			w := &tw{}
+			pMsgs(w, helpers.RawPanelASCIIstringsToInboundMessages(lines), false)
+			w.t(";")
+			seen := map[string]bool{}
+			for _, l := range lines {
+				if seen[l] {
+					continue
+				}
+				seen[l] = true
+				w.t("L")
+				w.h(l)
+				pMsgs(w, helpers.RawPanelASCIIstringsToInboundMessages([]string{l}), false)
+			}
+			res = w.String()
 		case "din.rx":
 			rx := libRegex(a[0])
 			if rx == nil {
@@ -675,14 +739,81 @@ func emitMsgs(ms []*rwp.InboundMessage) string {
 	return emitS("ein.msgs", msgsTokens(ms, true))
 }
 
+// `[ n <hex line>*`
+func rLines(r *tr) []string {
+	r.expect("[")
+	n := int(r.i64())
+	lines := make([]string, n)
+	for i := range lines {
+		lines[i] = string(unhx(r.next()))
+	}
+	return lines
+}
+
+// `[ k <msgs>*`
+func rMsgsLists(r *tr) [][]*rwp.InboundMessage {
+	r.expect("[")
+	k := int(r.i64())
+	lists := make([][]*rwp.InboundMessage, k)
+	for i := range lists {
+		lists[i] = rMsgs(r)
+	}
+	return lists
+}
+
+func hxListDash(ls []string) string {
+	if len(ls) == 0 {
+		return "-"
+	}
+	return hxList(ls)
+}
+
+// ein.seq / ein.par / ein.reuse: several message lists in one record
+func emitMsgsLists(cmd string, lists ...[]*rwp.InboundMessage) string {
+	w := &tw{}
+	w.t("[")
+	w.i(int64(len(lists)))
+	for _, ms := range lists {
+		pMsgs(w, ms, true)
+	}
+	return emitS(cmd, strings.Fields(w.String()))
+}
+
 // lines + the JSON oracle entries encoding/json yields for them
-func emitLines(lines []string) string {
+func emitLines(lines []string) string { return emitLinesAs("din.lines", lines) }
+
+// din.seq: several batches, one oracle table
+func emitLineBatches(batches ...[]string) string { return emitLineBatchesAs("din.seq", batches...) }
+
+func emitLineBatchesAs(cmd string, batches ...[]string) string {
+	w := &tw{}
+	w.t("[")
+	w.i(int64(len(batches)))
+	var all []string
+	for _, b := range batches {
+		w.t("[")
+		w.i(int64(len(b)))
+		for _, l := range b {
+			w.h(l)
+		}
+		all = append(all, b...)
+	}
+	return emitS(cmd, append(strings.Fields(w.String()), jsonOracle(all)...))
+}
+
+func emitLinesAs(cmd string, lines []string) string {
 	w := &tw{}
 	w.t("[")
 	w.i(int64(len(lines)))
 	for _, l := range lines {
 		w.h(l)
 	}
+	return emitS(cmd, append(strings.Fields(w.String()), jsonOracle(lines)...))
+}
+
+// `J [ k <entry>*`: what encoding/json yields for the JSON-carrying lines
+func jsonOracle(lines []string) []string {
+	w := &tw{}
 	w.t("J")
 	var entries []string
 	seen := map[string]bool{}
@@ -728,7 +859,7 @@ func emitLines(lines []string) string {
 	for _, e := range entries {
 		w.t(e)
 	}
-	return emitS("din.lines", strings.Fields(w.String()))
+	return strings.Fields(w.String())
 }
 
 // ------------------------------------------------------------------------------------------------
@@ -742,6 +873,11 @@ type mgen struct {
 	// negative enum arguments - but strings stay free of '|' and LF and register ids in their alphabet
 	// (C01: Spec.inWireDomain, the domain of enc_sound_masked)
 	wide bool
+	// coinciding values: every numeric draw repeats the previous numeric draw with probability 1/3 and every string draw
+	// the previous string (X == Y, RangeLow == RangeHigh, Title == Textline1, the same id twice, LEDs == OLEDs ...)
+	coin  bool
+	lastN uint32
+	lastS string
 }
 
 // out-of-range values wanted
@@ -751,6 +887,13 @@ var u32Bound = []uint32{0, 1, 2, 3, 15, 16, 84, 85, 127, 128, 169, 170, 254, 255
 var i32Bound = []int32{0, 1, -1, 2, 7, 9, 10, 99, 100, -100, 32767, -32768, 1<<31 - 1, -1 << 31}
 
 func (g *mgen) u32() uint32 {
+	if g.coin && g.r.Chance(33) {
+		return g.lastN
+	}
+	g.lastN = g.u32fresh()
+	return g.lastN
+}
+func (g *mgen) u32fresh() uint32 {
 	switch g.r.Intn(3) {
 	case 0:
 		return u32Bound[g.r.Intn(len(u32Bound))]
@@ -760,6 +903,14 @@ func (g *mgen) u32() uint32 {
 	return uint32(g.r.U64())
 }
 func (g *mgen) i32() int32 {
+	if g.coin && g.r.Chance(33) {
+		return int32(g.lastN)
+	}
+	v := g.i32fresh()
+	g.lastN = uint32(v)
+	return v
+}
+func (g *mgen) i32fresh() int32 {
 	switch g.r.Intn(3) {
 	case 0:
 		return i32Bound[g.r.Intn(len(i32Bound))]
@@ -787,6 +938,14 @@ func (g *mgen) enum(max int) int32 {
 
 // below n; wild: sometimes anything
 func (g *mgen) below(n int) uint32 {
+	if g.coin && g.r.Chance(33) {
+		return g.lastN % uint32(n)
+	}
+	v := g.belowFresh(n)
+	g.lastN = v
+	return v
+}
+func (g *mgen) belowFresh(n int) uint32 {
 	if g.oor() && g.r.Chance(25) {
 		return g.u32()
 	}
@@ -799,6 +958,13 @@ func (g *mgen) below(n int) uint32 {
 var textAtoms = []string{"A", "z", "0", "9", " ", "  ", "=", ":", "#", ",", "/", "-", "+", "é", "ø", "漢", " ", "\t", "\r", "\"", "\\", "{", "[", "HWC#1=2", "~", "\x80", "\xff", "\xc3"}
 
 func (g *mgen) str(maxAtoms int) string {
+	if g.coin && g.r.Chance(33) {
+		return g.lastS
+	}
+	g.lastS = g.strFresh(maxAtoms)
+	return g.lastS
+}
+func (g *mgen) strFresh(maxAtoms int) string {
 	if g.r.Chance(25) {
 		return ""
 	}
@@ -980,7 +1146,9 @@ func (g *mgen) ids() []uint32 {
 	}
 	ids := make([]uint32, n)
 	for i := range ids {
-		if g.r.Chance(80) {
+		if g.coin && i > 0 && g.r.Chance(33) {
+			ids[i] = ids[i-1]
+		} else if g.r.Chance(80) {
 			ids[i] = uint32(g.r.Range(0, 300))
 		} else {
 			ids[i] = g.u32()
@@ -1354,6 +1522,117 @@ func wideC01() {
 	}
 }
 
+// ------------------------------------------------------------------------------------------------
+// C01 scenario classes
+// ------------------------------------------------------------------------------------------------
+
+func cloneIn(m *rwp.InboundMessage) *rwp.InboundMessage { return proto.Clone(m).(*rwp.InboundMessage) }
+
+// a message with every section the encoder knows (so that a second message of the same kind shares all sub-message slots)
+func (g *mgen) denseMsg() *rwp.InboundMessage {
+	m := &rwp.InboundMessage{FlowMessage: rwp.InboundMessage_FlowMsg(g.r.Intn(4)), Command: &rwp.Command{}}
+	for i := 0; i < 16; i++ {
+		if g.r.Chance(30) {
+			g.setFlag(m.Command, i)
+		}
+	}
+	for i := 0; i < 13; i++ {
+		if g.r.Chance(80) {
+			g.setSub(m.Command, i)
+		}
+	}
+	for k := g.r.Range(1, 3); k > 0; k-- {
+		rgb, idx := g.color()
+		s := &rwp.HWCState{HWCIDs: g.ids(), HWCMode: &rwp.HWCMode{State: rwp.HWCMode_StateE(g.enum(5)), Output: g.r.Bool(), BlinkPattern: g.below(16)},
+			HWCColor:    &rwp.HWCColor{ColorRGB: rgb, ColorIndex: idx},
+			HWCExtended: &rwp.HWCExtended{Interpretation: rwp.HWCExtended_InterpretationE(g.enum(15)), Value: g.below(4096)},
+			HWCText:     g.text(), HWCGfx: g.gfx(), PublishRawADCValues: &rwp.PublishRawADCValues{Enabled: g.r.Bool()}}
+		m.States = append(m.States, s)
+	}
+	for k := g.r.Range(1, 3); k > 0; k-- {
+		m.Registers = append(m.Registers, g.register())
+	}
+	return m
+}
+
+// (b) the same message / state / register more than once in one call with others in between: A B A, A A, A X A X A
+func (g *mgen) repeatScenariosIn(n int) {
+	for i := 0; i < n; i++ {
+		a, b := g.msg(), g.msg()
+		emitMsgs([]*rwp.InboundMessage{a, b, cloneIn(a)})
+		emitMsgs([]*rwp.InboundMessage{a, cloneIn(a)})
+		emitMsgs([]*rwp.InboundMessage{a, {Command: &rwp.Command{ClearAll: true}}, cloneIn(a), b, cloneIn(a)})
+		// states A B A for the same component ids inside one message (graphics: identical images around another one)
+		ids := g.ids()
+		sa, sb := g.state(), g.state()
+		if i%2 == 0 {
+			sa = &rwp.HWCState{HWCGfx: g.gfx()}
+			sb = &rwp.HWCState{HWCGfx: g.gfx()}
+		}
+		sa.HWCIDs, sb.HWCIDs = ids, ids
+		sa2 := proto.Clone(sa).(*rwp.HWCState)
+		emitMsgs([]*rwp.InboundMessage{{States: []*rwp.HWCState{sa, sb, sa2}}})
+		emitMsgs([]*rwp.InboundMessage{{States: []*rwp.HWCState{sa}}, {States: []*rwp.HWCState{sb}}, {States: []*rwp.HWCState{sa2}}})
+		ra, rb := g.register(), g.register()
+		emitMsgs([]*rwp.InboundMessage{{Registers: []*rwp.Register{ra, rb, proto.Clone(ra).(*rwp.Register)}}})
+	}
+}
+
+// (a) results of earlier calls are not changed by later calls (sequential and in two goroutines); (e) a message object
+// converted, overwritten in place and converted again
+func (g *mgen) seqScenariosIn(n int) {
+	hw := func(first, k int, st int32) []*rwp.InboundMessage {
+		ms := []*rwp.InboundMessage{}
+		for i := 0; i < k; i++ {
+			ms = append(ms, &rwp.InboundMessage{States: []*rwp.HWCState{{HWCIDs: []uint32{uint32(first + i)}, HWCMode: &rwp.HWCMode{State: rwp.HWCMode_StateE(st)}}}})
+		}
+		return ms
+	}
+	emitMsgsLists("ein.seq", hw(1, 8, 1), hw(101, 8, 2), hw(40, 3, 2))
+	emitMsgsLists("ein.par", hw(1, 8, 1), hw(101, 8, 2), hw(40, 3, 2), hw(201, 5, 4))
+	for i := 0; i < n; i++ {
+		k := g.r.Range(2, 4)
+		lists := make([][]*rwp.InboundMessage, k)
+		for j := range lists {
+			lists[j] = g.msgs()
+			if g.r.Chance(30) {
+				lists[j] = append(lists[j], g.msgs()...)
+			}
+		}
+		if g.r.Chance(25) {
+			lists = append(lists, lists[0])
+		}
+		if i%4 == 3 {
+			emitMsgsLists("ein.par", lists...)
+		} else {
+			emitMsgsLists("ein.seq", lists...)
+		}
+		// second use of the same objects
+		var a, b []*rwp.InboundMessage
+		switch g.r.Intn(3) {
+		case 0:
+			a, b = g.msgs(), g.msgs()
+		case 1:
+			a, b = []*rwp.InboundMessage{g.denseMsg()}, []*rwp.InboundMessage{g.denseMsg()}
+		default:
+			a = []*rwp.InboundMessage{g.denseMsg(), g.msg()}
+			b = []*rwp.InboundMessage{g.denseMsg(), g.msg(), g.msg()}
+		}
+		emitMsgsLists("ein.reuse", a, b)
+	}
+}
+
+// (f) strings longer than the debug dump's patience
+func longScenariosIn(r *Rng) {
+	for _, n := range []int{201, 300, 499, 500, 501, 700, 2000} {
+		s := strings.Repeat("abcdefghi ", n/10+1)[:n]
+		emitMsgs(one(&rwp.HWCState{HWCIDs: []uint32{5}, HWCText: &rwp.HWCText{Title: s, IntegerValue: 12, Formatting: 1}}))
+		emitMsgs(one(&rwp.HWCState{HWCIDs: []uint32{5, 6}, HWCText: &rwp.HWCText{Title: "T", Textline1: s, Textline2: s, PairMode: 2}}))
+		emitMsgs([]*rwp.InboundMessage{{Command: &rwp.Command{SetCalibrationProfile: &rwp.CalibrationProfile{Json: "{\"k\":\"" + s + "\"}"}}}, {FlowMessage: 1}})
+		emitMsgs([]*rwp.InboundMessage{{Registers: []*rwp.Register{{Reg: 0, Id: strings.ToUpper(strings.ReplaceAll(s, " ", "9")), Value: 5}}}})
+	}
+}
+
 func genC01(r *Rng, n int, tier string) {
 	sweepC01()
 	wideC01()
@@ -1365,6 +1644,24 @@ func genC01(r *Rng, n int, tier string) {
 		// the same messages through encoder and decoder (C02.roundtrip_in on the implementation)
 		emitS("ein.rt", msgsTokens(ms, true))
 	}
+	// scenario classes (after the random stream, so that the records above keep their seeds)
+	scale := 1
+	if tier == "thorough" {
+		scale = 10
+	}
+	emit("ein.fields")
+	g.wide = false
+	g.repeatScenariosIn(80 * scale)
+	g.seqScenariosIn(200 * scale)
+	longScenariosIn(r)
+	// (d) coinciding values: fields that are carried only under a condition (X/Y without offset flag, index next to RGB,
+	// scale ranges without a type, value next to a font size ...) and equal values in neighbouring fields
+	g.coin = true
+	for i := 0; i < 1500*scale; i++ {
+		g.wide = r.Chance(40)
+		emitMsgs(g.msgs())
+	}
+	g.coin = false
 }
 
 // ------------------------------------------------------------------------------------------------
@@ -1558,8 +1855,11 @@ var nonGrammar = []string{"", "PING", "ping ", " ping", "pong", "Ping", "hello w
 	"xHeartBeatTimer=5", "MyPanelBrightness=3", "MyPanelBrightness=3,4", "xSetCalibrationProfile={}", "HWCg#1=0:AAAAx y", "zHWCg#1=0:AAAA",
 	"HWC#1=4 ", "MemA=7x", "PanelBrightness=3,4,", "HeartBeatTimer=5;", "Flag#1=1 1"}
 
-func (g *lgen) line() []string {
-	switch g.r.Intn(20) {
+func (g *lgen) line() []string { return g.lineFam(g.r.Intn(20)) }
+
+// one line group of family k (0..19; 18, 19 = a non-grammar line)
+func (g *lgen) lineFam(k int) []string {
+	switch k {
 	case 0:
 		return []string{words[g.r.Intn(len(words))]}
 	case 1:
@@ -1791,6 +2091,234 @@ func sweepC02() {
 	}
 }
 
+// ------------------------------------------------------------------------------------------------
+// C02 scenario classes: repeated lines, numerals spelled non-canonically, enumerated values outside their enumeration,
+// results of earlier calls
+// ------------------------------------------------------------------------------------------------
+
+// lines that stand between two occurrences of a line: commands, registers, blank / non-grammar lines, a one-line
+// graphics transfer, a JSON state
+var betweenLines = [][]string{{"Clear"}, {"ClearLEDs", "PanelBrightness=3,4"}, {""}, {"foo=bar"}, {"MemA=1"}, {"list"}, {"ping"},
+	{"HWCg#9=0/0,8x8:QUJD"}, {"{\"HWCIDs\":[3],\"HWCMode\":{\"State\":2}}"}, {"HeartBeatTimer=5"}, {"SimulateEnvironmentalHealth=Normal"}, {"pong", "Reboot"}}
+
+func cat(groups ...[]string) []string {
+	var out []string
+	for _, g := range groups {
+		out = append(out, g...)
+	}
+	return out
+}
+
+// one complete graphics transfer for a fixed keyword and id list
+func (g *lgen) transferFor(kw, ids string) []string {
+	n := g.r.Range(1, 400)
+	data := g.r.Bytes(n)
+	total := (n + 169) / 170
+	var out []string
+	for i := 0; i < total; i++ {
+		hi := (i + 1) * 170
+		if hi > n {
+			hi = n
+		}
+		l := fmt.Sprintf("%s%s=%d", kw, ids, i)
+		if i == 0 {
+			l += fmt.Sprintf("/%d,%dx%d", total-1, g.r.Range(1, 256), g.r.Range(1, 128))
+		}
+		out = append(out, l+":"+base64.StdEncoding.EncodeToString(data[i*170:hi]))
+	}
+	return out
+}
+
+// (b) the same line (group) more than once in one call, other lines in between: A X A, A A, A B A, A X A X A for every
+// line family; identical images A B A for one component
+func (g *lgen) repeatScenarios(perFam int) {
+	for fam := 0; fam < 19; fam++ {
+		for rep := 0; rep < perFam; rep++ {
+			a, b := g.lineFam(fam), g.lineFam(fam)
+			x := betweenLines[g.r.Intn(len(betweenLines))]
+			y := betweenLines[g.r.Intn(len(betweenLines))]
+			emitLines(cat(a, x, a))
+			emitLines(cat(a, a))
+			emitLines(cat(a, b, a))
+			emitLines(cat(a, x, a, y, a))
+		}
+	}
+	for _, kw := range []string{"HWCg#", "HWCgRGB#", "HWCgGray#"} {
+		for rep := 0; rep < perFam; rep++ {
+			ids := g.idList()
+			a, b := g.transferFor(kw, ids), g.transferFor(kw, ids)
+			emitLines(cat(a, b, a))
+			emitLines(cat(a, a))
+			emitLines(cat(a, []string{"Clear"}, a))
+		}
+	}
+}
+
+// (c) every numeric position of every line family, canonical values chosen so that a base-prefix / octal reading shows
+var dinNumTempls = []numTempl{
+	nt("HWC#", "8", "=", "10", ""), nt("HWC#", "9", ",", "10", "=", "265", ""), nt("HWCx#", "10", "=", "4109", ""), nt("HWCc#", "18", "=", "209", ""),
+	nt("HWCc#", "7", "=", "10", ""), nt("HWCrawADCValues#", "8", "=", "1", ""), nt("HWCrawADCValues#", "10", "=", "0", ""),
+	nt("HWCt#", "8", "=", "-12", "|", "3", "|", "45", "|Title|", "1", "|L1|L2|", "34", "|", "2", "|", "1", "|", "-100", "|", "100", "|", "-50", "|", "50", "||", "83", "|", "228", "|", "22", "|", "1", "|", "116", "|", "13", ""),
+	nt("HWCt#", "10", "=", "18", "|", "10", "|", "0", "|T"), nt("HWCt#", "9", "=", "0", "|", "0", "||A|", "0", "|B|C|", "0", "|", "0", ""),
+	nt("HWCg#", "8", "=", "0", "/", "0", ",", "10", "x", "8", ":QUJD"), nt("HWCgRGB#", "8", ",", "10", "=", "0", "/", "0", ",", "8", "x", "10", ",", "18", ",", "10", ":QUJD"),
+	nt("HWCgGray#", "10", "=", "0", ":"),
+	nt("HeartBeatTimer=", "10", ""), nt("DimmedGain=", "8", ""), nt("PublishSystemStat=", "10", ""), nt("LoadCPU=", "10", ""), nt("SleepTimer=", "100", ""),
+	nt("SleepMode=", "10", ""), nt("SleepScreenSaver=", "8", ""), nt("Webserver=", "8", ""), nt("Webserver=", "0", ""), nt("JSONonOutbound=", "9", ""),
+	nt("JSONonOutbound=", "0", ""), nt("PanelBrightness=", "10", ""), nt("PanelBrightness=", "8", ",", "10", ""), nt("PanelBrightness=", "255", ",", "0", ""),
+	nt("MemA1=", "10", ""), nt("Mem=", "8", ""), nt("Flag#", "10", "=", "1", ""), nt("Flag#", "8", "=", "0", ""), nt("Flag#", "0", "=", "10", ""), nt("ShiftB=", "255", ""), nt("State=", "10", ""), nt("StateZ9=", "0", ""),
+}
+
+// which positions take a sign: the value of the HWC*# lines and every field of a text line are free-form text read by
+// Atoi ('+' and '-' accepted by the code; the grammar admits '-' on int fields only: the Spec sorts the others out of
+// the domain)
+func dinSigns(t numTempl) numTempl {
+	t.plus = make([]bool, len(t.nums))
+	t.minus = make([]bool, len(t.nums))
+	if strings.HasPrefix(t.parts[0], "HWC") && !strings.HasPrefix(t.parts[0], "HWCg") {
+		first := 1
+		for i, p := range t.parts {
+			if strings.Contains(p, "=") {
+				first = i
+				break
+			}
+		}
+		for i := first; i < len(t.nums); i++ {
+			t.plus[i], t.minus[i] = true, true
+		}
+	}
+	return t
+}
+
+// a multi-part transfer whose part indices are re-spelled (the index of every part must still be read as a decimal)
+func respelledTransfer(r *Rng) []string {
+	sp := func(n int) string {
+		s := spellings(strconv.Itoa(n), false, false)
+		return s[r.Intn(len(s))]
+	}
+	data := r.Bytes(170*9 + 5)
+	var out []string
+	for i := 0; i < 10; i++ {
+		hi := (i + 1) * 170
+		if hi > len(data) {
+			hi = len(data)
+		}
+		l := "HWCg#8=" + sp(i)
+		if i == 0 {
+			l += "/" + sp(9) + "," + sp(10) + "x" + sp(8)
+		}
+		out = append(out, l+":"+base64.StdEncoding.EncodeToString(data[i*170:hi]))
+	}
+	return out
+}
+
+func (g *lgen) numeralScenarios(randomN int) {
+	for _, t0 := range dinNumTempls {
+		t := dinSigns(t0)
+		emitLines([]string{t.render(t.nums)})
+		for _, l := range t.respelled() {
+			emitLines([]string{l})
+		}
+	}
+	emitLines(respelledTransfer(g.r))
+	// very long digit strings with a value beyond the numerals of the grammar (outside the domain: Atoi's range error)
+	for _, l := range []string{"HeartBeatTimer=00000000000000000000004294967296", "HWC#7=000000000000000000000099999999999999999999", "PanelBrightness=0000000000000000000000000000000000000000000000000000000000000000000000000007,08",
+		"HWCt#7=0000000000000000000000000000000000000000000012|00000000000000000000000000000000000000003", "Flag#000000000000000000000000000000000000000000000000000000000000017=0000000000000000000000000000000001"} {
+		emitLines([]string{l})
+	}
+	for i := 0; i < randomN; i++ {
+		k := g.r.Range(1, 4)
+		var ls []string
+		for j := 0; j < k; j++ {
+			t := dinSigns(dinNumTempls[g.r.Intn(len(dinNumTempls))])
+			if g.r.Chance(70) {
+				sp := t.respelled()
+				ls = append(ls, sp[g.r.Intn(len(sp))])
+			} else {
+				ls = append(ls, t.respelledAll(g.r))
+			}
+			if g.r.Chance(30) {
+				ls = append(ls, g.line()...)
+			}
+		}
+		emitLines(ls)
+	}
+}
+
+// (g) a known keyword / key with a value outside its enumeration, alone and inside batches directly after lines that
+// produce a message (din.ctx: the decoder's answer for every line alone is part of the record; the batch must be the
+// concatenation: no line may change what its neighbours denote)
+var dinEnumOutside = []string{"SimulateEnvironmentalHealth=Weird", "SimulateEnvironmentalHealth=normal", "SimulateEnvironmentalHealth=", "SimulateEnvironmentalHealth=Blocked ",
+	"SimulateEnvironmentalHealth=2", "HWCrawADCValues#5=2", "HWCrawADCValues#5=", "HWCrawADCValues#5=on", "HWCrawADCValues#5=01", "ActivePanel=0", "ActivePanel=2", "ActivePanel=",
+	"SetNetworkConfig=notjson", "SetNetworkConfig=", "HWC#5=", "HWC#5=x", "HWCx#5=-1", "HWCc#5=blue", "HWCt#5=a|b|c", "MemA=", "Flag#A=1", "State1=x", "PanelBrightness=1,2,3", "HeartBeatTimer=", "HeartBeatTimer=-1",
+	"Webserver=yes", "JSONonOutbound=true", "SleepMode=deep", "LoadCPU=high"}
+
+func (g *lgen) enumScenarios(randomN int) {
+	producers := [][]string{{"HWC#7=4"}, {"Clear"}, {"ping"}, {"MemA=4"}, {"HWCt#3=12|1||Gain"}, {"HeartBeatTimer=5"}, {"SimulateEnvironmentalHealth=Safemode"},
+		{"HWCg#5=0/0,8x8:QUJD"}, {"HWCrawADCValues#5=1"}, {"PanelBrightness=3,4"}, {"{\"HWCIDs\":[3],\"HWCMode\":{\"State\":2}}"}, {"SetCalibrationProfile={}"}}
+	for _, e := range dinEnumOutside {
+		emitLinesAs("din.ctx", []string{e})
+		for _, p := range producers {
+			emitLinesAs("din.ctx", cat(p, []string{e}))
+		}
+		emitLinesAs("din.ctx", []string{"HWC#7=4", e, "HWC#7=0"})
+		emitLinesAs("din.ctx", []string{e, e, "HWCx#9=100", e})
+	}
+	for i := 0; i < randomN; i++ {
+		var ls []string
+		k := g.r.Range(2, 6)
+		for j := 0; j < k; j++ {
+			switch {
+			case g.r.Chance(40):
+				ls = append(ls, dinEnumOutside[g.r.Intn(len(dinEnumOutside))])
+			case g.r.Chance(15):
+				ls = append(ls, g.malformed())
+			default:
+				f := g.r.Intn(19)
+				if f == 15 || f == 17 { // keep graphics transfers and JSON out of the random context batches
+					f = 4
+				}
+				ls = append(ls, g.lineFam(f)...)
+			}
+		}
+		emitLinesAs("din.ctx", ls)
+	}
+}
+
+// (a) what an earlier call returned is not changed by a later call
+func (g *lgen) seqScenarios(randomN int) {
+	emitLineBatches([]string{"HWC#1=1", "HWC#2=1", "HWC#3=1"}, []string{"HWC#101=2", "HWC#102=2", "HWC#103=2"}, []string{"HWC#40=2"})
+	emitLineBatches([]string{"HWCt#12=45|1||Gain"}, []string{"HWCt#12=46|1||Gain"})
+	for i := 0; i < randomN; i++ {
+		k := g.r.Range(2, 4)
+		batches := make([][]string, k)
+		for b := range batches {
+			for j := g.r.Range(1, 4); j > 0; j-- {
+				batches[b] = append(batches[b], g.line()...)
+			}
+		}
+		if g.r.Chance(30) { // the same batch again
+			batches = append(batches, batches[0])
+		}
+		if i%4 == 3 {
+			emitLineBatchesAs("din.par", batches...)
+		} else {
+			emitLineBatches(batches...)
+		}
+	}
+}
+
+// (f) lines longer than the debug dump's patience: long titles / text lines, long calibration payloads, long non-grammar lines
+func (g *lgen) longLineScenarios() {
+	for _, n := range []int{201, 300, 499, 500, 501, 700, 2000} {
+		s := strings.Repeat("abcdefghi ", n/10+1)[:n]
+		emitLines([]string{"HWCt#5=12|1||" + s})
+		emitLines([]string{"HWC#1=4", "HWCt#5,6=|||T||" + s + "|" + s + "||2", "HWC#1=0"})
+		emitLines([]string{"SetCalibrationProfile={\"k\":\"" + s + "\"}"})
+		emitLines([]string{"unknownKeyword" + s, "HWC#1=4"})
+		emitLines([]string{"Mem" + strings.ToUpper(strings.ReplaceAll(s, " ", "9")) + "=5"})
+	}
+}
+
 func genC02(r *Rng, n int, tier string) {
 	genInMatch(r, tier)
 	sweepC02()
@@ -1835,6 +2363,16 @@ func genC02(r *Rng, n int, tier string) {
 		}
 		emitLines(lines)
 	}
+	// scenario classes (after the random stream, so that the records above keep their seeds)
+	scale := 1
+	if tier == "thorough" {
+		scale = 10
+	}
+	g.repeatScenarios(6 * scale)
+	g.numeralScenarios(300 * scale)
+	g.enumScenarios(300 * scale)
+	g.seqScenarios(150 * scale)
+	g.longLineScenarios()
 }
 
 // ------------------------------------------------------------------------------------------------
@@ -1934,6 +2472,33 @@ func genC06in(r *Rng, n int, tier string) {
 			}
 			emitMsgs(ms)
 		}
+	}
+	// call sequences on hostile inputs: results kept across calls, two goroutines, objects reused (no panic, no hang,
+	// the same results as one call after another)
+	for i := 0; i < n/60+4; i++ {
+		lists := make([][]*rwp.InboundMessage, r.Range(2, 4))
+		for j := range lists {
+			lists[j] = g.m.msgs()
+		}
+		switch i % 3 {
+		case 0:
+			emitMsgsLists("ein.par", lists...)
+		case 1:
+			emitMsgsLists("ein.seq", lists...)
+		default:
+			emitMsgsLists("ein.reuse", lists[0], lists[1])
+		}
+		batches := make([][]string, r.Range(2, 4))
+		for b := range batches {
+			for j := r.Range(1, 3); j > 0; j-- {
+				if r.Chance(60) {
+					batches[b] = append(batches[b], g.malformed())
+				} else {
+					batches[b] = append(batches[b], g.line()...)
+				}
+			}
+		}
+		emitLineBatches(batches...)
 	}
 }
 
